@@ -18,7 +18,7 @@ RULE = ("hostile launches (vertical 90 / 89.99 deg, steep, downward to -90 deg, 
         "launch is steeper than 45 deg")
 MUST_OBSERVE = ["fires", "range_errors", "reason_velocity", "reason_drop", "reason_altitude", "normal_returns",
                 "mode_plain", "mode_extra", "twin_runs", "twin_rows_compared", "budget_checked", "vertical_launches",
-                "downward_launches", "slow_launches", "earlier_rows_checked"]
+                "downward_launches", "slow_launches", "earlier_rows_checked", "zeroings_budgeted"]
 ASSUMPTIONS = ["bounded restatement of 'terminates': fire() must finish within 1.5 x P/calc_step + 1000 integration steps, P being "
                "the air-relative path length of an independent coarse RK4 flight continued until one of this configuration's "
                "limits is violated; nothing is claimed beyond that budget",
@@ -105,6 +105,27 @@ def check_case(ctx, case):
             return
     ctx.count("budget_checked")
     ctx.max("steps_over_budget", counter.steps / step_budget)
+    if case.get("zero_ft"):
+        # zeroing is a bounded number of such computations: (iteration cap + 1) x the same per-flight budget
+        cap = cfg.get("cMaxIterations", 20)
+        zc = monitors.StepCounter(budget=(cap + 1) * step_budget)
+        zshot = build.shot(spec)
+        before = zshot.weapon.zero_elevation.raw_value
+        ctx.count("zeroings_budgeted")
+        with monitors.quiet(), zc:
+            try:
+                build.calculator(cfg).set_weapon_zero(zshot, Distance.Foot(case["zero_ft"]))
+            except (pb.ZeroFindingError, pb.RangeError):
+                ctx.count("zeroings_raised")
+                if zshot.weapon.zero_elevation.raw_value != before:
+                    ctx.violation("failed-zeroing-changed-stored-zero", "a failed zeroing changed the stored zero", case)
+            except ZeroDivisionError:
+                ctx.count("zeroings_raised")
+            except monitors.StepBudgetExceeded:
+                ctx.violation("zeroing-no-termination-within-budget",
+                              f"set_weapon_zero took more than {(cap + 1) * step_budget} integration steps ({cap} iterations allowed, "
+                              f"{step_budget} steps per flight)", case)
+        ctx.max("zero_steps_over_budget", zc.steps / ((cap + 1) * step_budget))
     nontrivial = err is not None or abs(el) > 45
 
     def bad(key, what, **kw):
@@ -224,7 +245,10 @@ def gen_case(rng):
     req = {"range_ft": r_ft, "step_ft": r_ft / rng.choice([3, 10, 30]), "extra": rng.random() < 0.5}
     if rng.random() < 0.15:
         req["time_step"] = rng.choice([0.05, 0.5])
-    return {"shot": s, "config": cfg, "request": req, "twin": True}
+    case = {"shot": s, "config": cfg, "request": req, "twin": True}
+    if rng.random() < 0.25:
+        case["zero_ft"] = rng.choice([75.0, 300.0, 3000.0, 30000.0])
+    return case
 
 
 def run(ctx):
